@@ -192,6 +192,64 @@ func domFlt(r *gen.Rng, n int, thorough bool, o *Out) {
 			return vx.Trie(out)
 		})
 
+		// --- matcher TREES built with NewSetMatcher directly: members with equal paths (the first one
+		// given decides), wildcard members next to specific ones, wildcard sets with members, merged in
+		// both orders. Only trees of at most four members per node (sort.Sort is an insertion sort there).
+		{
+			var encT func(d int, at []fieldpath.Path) (*fieldpath.SetMatcher, string)
+			encT = func(d int, at []fieldpath.Path) (*fieldpath.SetMatcher, string) {
+				if d == 0 || len(at) == 0 || cr.Chance(25) {
+					return fieldpath.MatchAnySet(), "W"
+				}
+				nm := 1 + cr.Intn(4)
+				var mem []*fieldpath.SetMemberMatcher
+				enc := ""
+				for k := 0; k < nm; k++ {
+					var pm fieldpath.PathElementMatcher
+					var below []fieldpath.Path
+					if len(mem) > 0 && cr.Chance(35) {
+						pm = mem[cr.Intn(len(mem))].Path // the same path again
+					} else if cr.Chance(20) {
+						pm = fieldpath.MatchAnyPathElement()
+					} else {
+						pm = fieldpath.PathElementMatcher{PathElement: gen.Pick(cr, at)[0]}
+					}
+					for _, q := range at {
+						if len(q) > 1 && (pm.Wildcard || q[0].Equals(pm.PathElement)) {
+							below = append(below, q[1:])
+						}
+					}
+					child, ce := encT(d-1, below)
+					mem = append(mem, &fieldpath.SetMemberMatcher{Path: pm, Child: child})
+					enc += "(" + encMatcher(pm) + ce + ")"
+				}
+				w := cr.Chance(5)
+				wf := "F"
+				if w {
+					wf = "T"
+				}
+				return fieldpath.NewSetMatcher(w, mem...), "N" + wf + enc + ";"
+			}
+			nt := 1 + cr.Intn(2)
+			var trees []*fieldpath.SetMatcher
+			enc := "t"
+			for k := 0; k < nt; k++ {
+				m, e := encT(3, paths)
+				trees = append(trees, m)
+				enc += e
+			}
+			enc += ";"
+			opT := "flt.apply " + zs + " " + enc
+			o.Emit(opT, func() string {
+				set := fieldpath.NewSet(paths...)
+				out := fieldpath.NewIncludeMatcherFilter(trees...).Filter(set)
+				if !out.Difference(set).Empty() {
+					o.Fail("C19", "include-filter-invents-path", "", "include-filter-invents-path "+opT, opT)
+				}
+				return vx.Trie(out)
+			})
+		}
+
 		// --- EnsureNamedFieldsAreMembers
 		opE := "flt.ensure " + vx.TypeRef(tr) + " " + zs
 		o.Emit(opE, func() string {
